@@ -86,6 +86,20 @@ int main(int argc, char **argv)
         judge(i, be, ps, ret, expected_be(i, host >= 1, host >= 2), env, cd);
         distinct_add_u64(fnv1a(cd, strlen(cd), 13));
     }
+    /* an init that succeeds although one of its allocation requests was refused (whether it may is C16's
+     * business) must still have selected the widest usable back end */
+    for (i = 0; i < 6; ++i) for (k = 1; k <= 2; ++k) {
+        size_t ps; int ret, be; char cd[100], env[200];
+        g_paint = 0xA5;
+        arena_reset();
+        g_fail_at = g_alloc_calls + (int)k;
+        be = do_init(i, 0x5555555555555555ULL, &ps, &ret);
+        g_fail_at = 0;
+        if (!ret) continue;
+        snprintf(cd, sizeof(cd), "c13f %d %zu", i, k);
+        snprintf(env, sizeof(env), "real CPU: sse2=%d avx2=%d; allocation request %zu of the init refused, init returned 1", host >= 1, host >= 2, k);
+        judge(i, be, ps, ret, expected_be(i, host >= 1, host >= 2), env, cd);
+    }
     note_num("host_sse2", host >= 1); note_num("host_avx2", host >= 2);
     sample_add("skinny128_ctr_init called with rax=rbx=rcx=rdx=rsi=r8..r11=0xBFEBFBFF and the stack painted 0xFF, three times");
     return finish();
